@@ -143,6 +143,64 @@ def desugar_struct_objects(tree):
     return tree
 
 
+def split_parallel_assignments(tree):
+    """`a, b = x, y` with as many values as targets, where no value mentions any of the targets (so nothing is swapped), means
+    `a = x; b = y` evaluated left to right: it is rewritten to that sequence, so that every rule sees one assignment per target.
+    (Values are evaluated before any store in the original; since no value reads a target and -- for the plain names, attributes
+    and constant-key subscripts accepted here -- a store cannot change what a later value evaluates to, the order is immaterial.)"""
+    def simple_target(t):
+        if isinstance(t, ast.Name):
+            return True
+        if isinstance(t, ast.Attribute):
+            return isinstance(t.value, ast.Name)
+        return False
+
+    def independent(targets, values):
+        tdump = {ast.dump(ast.fix_missing_locations(_load(t))) for t in targets}
+        tnames = {t.id for t in targets if isinstance(t, ast.Name)}
+        for v in values:
+            for n in ast.walk(v):
+                if isinstance(n, ast.Name) and n.id in tnames:
+                    return False
+                if isinstance(n, ast.Attribute) and ast.dump(_load(n)) in tdump:
+                    return False
+                if isinstance(n, (ast.Call, ast.Await, ast.Yield, ast.YieldFrom)) and len(values) > 1 and any(isinstance(t, ast.Attribute) for t in targets):
+                    # a call could read an attribute that an earlier store of the sequence would already have changed
+                    if not (isinstance(n, ast.Call) and isinstance(n.func, (ast.Name, ast.Attribute)) and not any(isinstance(a, ast.Attribute) and isinstance(a.value, ast.Name) and a.value.id == 'self' for a in ast.walk(n) if a is not n.func)):
+                        return False
+        return True
+
+    def _load(t):
+        c = clone(t)
+        for n in ast.walk(c):
+            if hasattr(n, 'ctx'):
+                n.ctx = ast.Load()
+        return c
+
+    def fix(stmts):
+        out = []
+        for st in stmts:
+            for field in ('body', 'orelse', 'finalbody'):
+                if isinstance(getattr(st, field, None), list) and getattr(st, field) and isinstance(getattr(st, field)[0], ast.stmt):
+                    setattr(st, field, fix(getattr(st, field)))
+            for h in getattr(st, 'handlers', []) or []:
+                h.body = fix(h.body)
+            if isinstance(st, ast.Assign) and len(st.targets) == 1 and isinstance(st.targets[0], (ast.Tuple, ast.List)) \
+                    and isinstance(st.value, (ast.Tuple, ast.List)) and len(st.targets[0].elts) == len(st.value.elts) >= 2 \
+                    and not any(isinstance(x, ast.Starred) for x in st.targets[0].elts + st.value.elts) \
+                    and all(simple_target(t) for t in st.targets[0].elts) and independent(st.targets[0].elts, st.value.elts):
+                for t, v in zip(st.targets[0].elts, st.value.elts):
+                    a = ast.Assign(targets=[t], value=v)
+                    ast.copy_location(a, st)
+                    out.append(a)
+                continue
+            out.append(st)
+        return out
+    tree.body = fix(tree.body)
+    ast.fix_missing_locations(tree)
+    return tree
+
+
 def set_parents(tree):
     for n in ast.walk(tree):
         for c in ast.iter_child_nodes(n):
@@ -177,6 +235,7 @@ class Index:
                     except SyntaxError as e:
                         raise AnalysisError('cannot parse %s: %s' % (p, e))
                     tree = desugar_struct_objects(tree)
+                    tree = split_parallel_assignments(tree)
                     set_parents(tree)
                     self.mods[rel] = Mod(rel, p, tree, raw.decode('utf-8', 'replace'))
         for m in self.mods.values():
